@@ -26,6 +26,7 @@ THEOREMS = ['C08_volume_str_counts', 'C08_write_wf', 'C08_prune_preserves_wf',
             'C08_convert_wf_linked', 'C08_convert_wf_surfaces_linked',
             'C08_table_keys_linked', 'C08_matching_numbers_linked',
             'C08_insert_helpers_ok', 'C08_convert_wf_full_linked',
+            'C08_norm_fixed_linked', 'C08_convert_wf_all_linked',
             'C08_numbers_given', 'C08_numbers_finite', 'C08_words_okb_sound',
             'C08_remove_empty_volumes_ok', 'C08_geomcomp_partition',
             'C08_bc_defined',
@@ -443,7 +444,7 @@ def _run(res, tier, seed, proofs_ok, cov):
                             'file_bytes': len(conv.text)})
     bad, errs = run_multi('c08_tie', ['check_file', 'check_verdict',
                                       'outside_guard', 'stage0_ok', 'check_reader',
-                           'text_ok', 'check_helpers'],
+                           'text_ok', 'check_helpers', 'check_density'],
                           cases)
     n_in = len(bad['outside_guard']) if not errs else 0   # indices where outside_guard = false
     res.extra['guard'] = {'cases': len(cases),
@@ -508,6 +509,20 @@ def _run(res, tier, seed, proofs_ok, cov):
                       f'{" ".join(args) or "default"}]',
                       {'input': {'deck': deck_text, 'args': args},
                        'theorem_or_correspondence': 'tie:helpers'},
+                      found_input=False)
+    res.obligation(f'tie:density ({len(cases)} snapshots: C09\'s normalize_float maps '
+                   'every stored density to itself and to the spelling the writers '
+                   'use - hypothesis density_from_c09 of C08_convert_wf_all_linked)',
+                   not bad['check_density'] and not errs,
+                   f'{len(bad["check_density"])} snapshots differ')
+    for idx in bad['check_density'][:5]:
+        deck_text, args, exc, verdict, _open = meta[idx]
+        res.violation('correspondence',
+                      'a stored density is not a fixed point of C09\'s '
+                      'normalize_float model, or the model disagrees with the '
+                      f'implementation [options {" ".join(args) or "default"}]',
+                      {'input': {'deck': deck_text, 'args': args},
+                       'theorem_or_correspondence': 'tie:density'},
                       found_input=False)
     res.obligation(f'tie:reader ({len(cases)} runs: the Coq reader parse_t4 on the '
                    'bytes of the real file accepts exactly the files the '
